@@ -11,7 +11,7 @@ hook sets `.stream` according to the policy.  Observed: the error hook, what the
 list written to the peer (de-framed by an independent strict reader), len(request_body_buf)/len(response_body_buf)
 after every delivery, and what the flow kept.
 """
-import itertools
+import itertools, json
 from common.check import PropertyCheck, Skip, hx, unhx
 
 from mitmproxy import exceptions
@@ -103,12 +103,11 @@ def status_of(raw: bytes):
 
 # ---- the run ------------------------------------------------------------------------------------------------------
 def run_flow(case):
-    resp = case["dir"] == "resp"
-    wire = case["op"] == "wire"
-    chunks = [] if wire else [unhx(c) for c in case["chunks"]]
-    body = b"".join(chunks)
-    framing = case["framing"]
-    pol = policy_value(case["policy"])
+    """one exchange on a fresh HttpLayer.  `flow`/`wire` cases observe one direction (dir); an `exch` case carries a
+    request body AND a response body (case["pre"] = the request side) and observes both."""
+    resp_main = case["dir"] == "resp"
+    pre = case.get("pre")
+    pols = {True: case["policy"] if resp_main else None, False: (pre["policy"] if pre else None) if resp_main else case["policy"]}
     with taddons.context(proxyserver.Proxyserver()) as tctx:
         try:
             tctx.options.update(body_size_limit=case["limit"], stream_large_bodies=case["thr"],
@@ -124,87 +123,108 @@ def run_flow(case):
             if stream[0] is None and lay.streams: stream[0] = next(iter(lay.streams.values()))
             f = getattr(h, "flow", None)
             if f is not None: seen["flow"] = f
-            if h.name == ("responseheaders" if resp else "requestheaders") and case["policy"] != "none":
-                (f.response if resp else f.request).stream = pol
+            for is_resp, hook in ((False, "requestheaders"), (True, "responseheaders")):
+                if h.name == hook and pols[is_resp] not in (None, "none"):
+                    (f.response if is_resp else f.request).stream = policy_value(pols[is_resp])
             if h.name == "error":
                 seen["err"].append(f.error.msg if f.error else "")
         w = World(lay, ctx, on_hook=on_hook)
         w.start()
-        samples, head_at = [], [None]
-        peer = "client" if resp else "server0"
 
-        def sample(i):
-            if stream[0] is None and lay.streams: stream[0] = next(iter(lay.streams.values()))
-            s = stream[0]
-            samples.append(0 if s is None else len(s.response_body_buf if resp else s.request_body_buf))
-            if head_at[0] is None and split_head(w.sent_to(peer))[0] is not None and not (resp and status_of(w.sent_to(peer)) != 200):
-                head_at[0] = i
+        def phase(resp, sub):
+            """deliver one message with a body in direction `resp` and observe that direction"""
+            wire = sub["op"] == "wire"
+            chunks = [] if wire else [unhx(c) for c in sub["chunks"]]
+            body = b"".join(chunks)
+            framing = sub["framing"]
+            err0 = len(seen["err"])
+            samples, head_at = [], [None]
+            peer = "client" if resp else "server0"
 
-        def frame_head():
-            if framing == "cl": return b"Content-Length: %d\r\n" % (case["cl"] if wire else len(body))
-            if framing == "chunked": return b"Transfer-Encoding: chunked\r\n"
-            return b""
-        if resp:
-            w.recv("client", b"GET http://a.example/p HTTP/1.1\r\nHost: a.example\r\n\r\n")
-            src = "server0"
-            head = b"HTTP/1.1 200 OK\r\n" + frame_head() + b"\r\n"
-            if src not in w.conns: raise RuntimeError("no upstream connection was opened")
-        else:
-            src = "client"
-            head = b"POST http://a.example/p HTTP/1.1\r\nHost: a.example\r\n" + frame_head() + b"\r\n"
-        segs = [b"%x\r\n%s\r\n" % (len(c), c) for c in chunks] if framing == "chunked" else list(chunks)
-        # deliveries: the head (optionally glued to the first chunk), every chunk, the end marker
-        deliveries = []
-        if case.get("glue") and segs:
-            deliveries.append(("d", head + segs[0])); rest = segs[1:]
-        else:
-            deliveries.append(("d", head)); rest = segs
-        deliveries += [("d", s) for s in rest]
-        if framing == "chunked": deliveries.append(("d", b"0\r\n\r\n"))
-        if framing == "eof": deliveries.append(("close", None))
-        if wire:
-            # raw wire bytes in an arbitrary segmentation (not aligned with chunks), optionally the peer's close
-            deliveries = [("d", head)] + [("d", unhx(x)) for x in case["segs"]] + ([("close", None)] if case["close"] else [])
-        for i, (k, d) in enumerate(deliveries):
-            if k == "d": w.recv(src, d)
-            else: w.peer_close(src)
-            sample(i)
-        fl = seen["flow"]
-        msg = None if fl is None else (fl.response if resp else fl.request)
-        raw = w.sent_to(peer)
-        phead, pbody = split_head(raw)
-        # per-SendData pieces after the head (content-length / until-eof framing: one SendData per relayed chunk)
-        pieces, acc = [], b""
-        for lab, data in w.sent_log:
-            if lab != peer: continue
-            if phead is not None and len(acc) >= len(phead): pieces.append(data)
-            acc += data
-        out_framing = None
-        peer_chunks, framing_ok, leftover = [], True, b""
-        relayed = phead is not None and not (resp and status_of(raw) != 200)
-        if relayed:
-            hl = phead.lower()
-            if b"transfer-encoding: chunked" in hl:
-                out_framing = "chunked"
-                peer_chunks, framing_ok, leftover = read_chunked(pbody)
+            def sample(i):
+                if stream[0] is None and lay.streams: stream[0] = next(iter(lay.streams.values()))
+                st = stream[0]
+                samples.append(0 if st is None else len(st.response_body_buf if resp else st.request_body_buf))
+                if head_at[0] is None and split_head(w.sent_to(peer))[0] is not None and not (resp and status_of(w.sent_to(peer)) != 200):
+                    head_at[0] = i
+
+            def frame_head():
+                if framing == "cl": return b"Content-Length: %d\r\n" % (sub["cl"] if wire else len(body))
+                if framing == "chunked": return b"Transfer-Encoding: chunked\r\n"
+                return b""
+            if resp:
+                src = "server0"
+                head = b"HTTP/1.1 200 OK\r\n" + frame_head() + b"\r\n"
+                if src not in w.conns: raise RuntimeError("no upstream connection was opened")
             else:
-                out_framing = "cl" if b"content-length:" in hl else "eof"
-                peer_chunks = [p for p in pieces if p]
-        client_raw = w.sent_to("client")
-        content = None if msg is None else msg.raw_content
-        return {
-            "rejected": False,
-            "errors": seen["err"],
-            "client_status": status_of(client_raw),
-            "client_closed": ctx.client.state.name == "CLOSED",
-            "relayed": relayed, "head_at": head_at[0], "out_framing": out_framing,
-            "peer_chunks": [hx(c) for c in peer_chunks], "framing_ok": bool(framing_ok), "leftover_hex": hx(leftover),
-            "samples": samples, "content_hex": None if content is None else hx(content),
-            "crash": [e[0] + ": " + e[1] for e in w.errors],
-            "n_deliveries": len(deliveries),
-            "proto_err": any("HTTP/1 protocol error" in e for e in seen["err"]),
-            "trailer": trailer_seen(lay, ctx, resp, w, any("HTTP/1 protocol error" in e and "peer closed connection" not in e for e in seen["err"])),
-        }
+                src = "client"
+                head = b"POST http://a.example/p HTTP/1.1\r\nHost: a.example\r\n" + frame_head() + b"\r\n"
+            segs = [b"%x\r\n%s\r\n" % (len(c), c) for c in chunks] if framing == "chunked" else list(chunks)
+            # deliveries: the head (optionally glued to the first chunk), every chunk, the end marker
+            deliveries = []
+            if sub.get("glue") and segs:
+                deliveries.append(("d", head + segs[0])); rest = segs[1:]
+            else:
+                deliveries.append(("d", head)); rest = segs
+            deliveries += [("d", x) for x in rest]
+            if framing == "chunked": deliveries.append(("d", b"0\r\n\r\n"))
+            if framing == "eof": deliveries.append(("close", None))
+            if wire:
+                # raw wire bytes in an arbitrary segmentation (not aligned with chunks), optionally the peer's close
+                deliveries = [("d", head)] + [("d", unhx(x)) for x in sub["segs"]] + ([("close", None)] if sub["close"] else [])
+            for i, (k, d) in enumerate(deliveries):
+                if k == "d": w.recv(src, d)
+                else: w.peer_close(src)
+                sample(i)
+            fl = seen["flow"]
+            msg = None if fl is None else (fl.response if resp else fl.request)
+            raw = w.sent_to(peer)
+            phead, pbody = split_head(raw)
+            # per-SendData pieces after the head (content-length / until-eof framing: one SendData per relayed chunk)
+            pieces, acc = [], b""
+            for lab, data in w.sent_log:
+                if lab != peer: continue
+                if phead is not None and len(acc) >= len(phead): pieces.append(data)
+                acc += data
+            out_framing = None
+            peer_chunks, framing_ok, leftover = [], True, b""
+            relayed = phead is not None and not (resp and status_of(raw) != 200)
+            if relayed:
+                hl = phead.lower()
+                if b"transfer-encoding: chunked" in hl:
+                    out_framing = "chunked"
+                    peer_chunks, framing_ok, leftover = read_chunked(pbody)
+                else:
+                    out_framing = "cl" if b"content-length:" in hl else "eof"
+                    peer_chunks = [p for p in pieces if p]
+            client_raw = w.sent_to("client")
+            content = None if msg is None else msg.raw_content
+            errs = seen["err"][err0:]
+            return {
+                "rejected": False,
+                "errors": errs,
+                "client_status": status_of(client_raw),
+                "client_closed": ctx.client.state.name == "CLOSED",
+                "relayed": relayed, "head_at": head_at[0], "out_framing": out_framing,
+                "peer_chunks": [hx(c) for c in peer_chunks], "framing_ok": bool(framing_ok), "leftover_hex": hx(leftover),
+                "samples": samples, "content_hex": None if content is None else hx(content),
+                "crash": [e[0] + ": " + e[1] for e in w.errors],
+                "n_deliveries": len(deliveries),
+                "proto_err": any("HTTP/1 protocol error" in e for e in errs),
+                "trailer": trailer_seen(lay, ctx, resp, w, any("HTTP/1 protocol error" in e and "peer closed connection" not in e for e in errs)),
+            }
+        if not resp_main:
+            return phase(False, case)
+        if pre is None:
+            w.recv("client", b"GET http://a.example/p HTTP/1.1\r\nHost: a.example\r\n\r\n")
+            return phase(True, case)
+        # an exchange with a request body and a response body
+        sub = dict(pre, op="flow")
+        obs_req = phase(False, sub)
+        if any(LIMIT_MSG in e for e in obs_req["errors"]) or not obs_req["relayed"] or "server0" not in w.conns:
+            return {"rejected": False, "pre": obs_req, "main": None, "crash": obs_req["crash"]}
+        obs = phase(True, case)
+        return {"rejected": False, "pre": obs_req, "main": obs, "crash": obs["crash"]}
 
 
 def trailer_seen(lay, ctx, resp, w, proto_err):
@@ -264,13 +284,14 @@ class Check(PropertyCheck):
                   "driven by Http1Connection.read_body) as an Incremental byte consumer, and of human.parse_size over the "
                   "regenerated SIZE_UNITS table — for ALL option values, expected sizes, wire bytes, segmentations, chunk lists "
                   "and callables (induction): over_limit_errors, buffer_bound_partial (+ buffer_bound_counterexample for the "
-                  "recorded finding), streamed_exact, relayed_exact_any_chunking, relayed_exact_events, stored_iff_option, "
+                  "recorded finding), response_side_independent / request_side_independent / request_verdict_never_reaches_response "
+                  "(one exchange: the request-side verdict, flags and buffers never take part in the response side), streamed_exact, relayed_exact_any_chunking, relayed_exact_events, stored_iff_option, "
                   "unstored_stream_holds_nothing, reader_lawful / reader_segmentation_independent, wire_events_carry_body, "
                   "wire_body_segmentation_independent, wire_relay_segmentation_independent (the same wire bytes in any two "
                   "segmentations deliver the same bytes to the peer), parseSize laws. The model is tied to the real "
                   "HttpLayer/HttpStream/Http1 stack run through world.py: error hook, client error, the exact chunk list the peer "
                   "receives, the buffer length after every delivery, the stored content and the readers' verdict are compared for "
-                  "both directions, three framings, all option combinations, fourteen stream policies, chunk-aligned deliveries "
+                  "both directions (also both in ONE exchange: request body and response body with independently drawn sizes), three framings, all option combinations, fourteen stream policies, chunk-aligned deliveries "
                   "AND raw wire bytes (well-formed and mutated chunked encoding) in arbitrary segmentations.")
     level_note = ("trusted: Lean kernel; the differential tie (grid + exhaustive small chunkings + random wires/segmentations). The "
                   "body readers are modelled as byte automata — a reformulation of h11's buffer-based readers (extract-at-most / "
@@ -371,8 +392,18 @@ class Check(PropertyCheck):
                         for fr in framings[d]:
                             for lim, thr in (("3", None), (None, "2"), ("4", "2"), ("2", "4")):
                                 grid.append(self._flow(d, fr, lim, thr, rng.randint(0, 1), rng.pick(POLICIES), ch, glue=rng.chance(0.3)))
-        rng.shuffle(grid)
-        if tier == "quick": grid = grid[:1500]
+        # exchanges: request body x response body, sizes {0, small, = threshold, > threshold, = limit, > limit} drawn
+        # independently per direction, x framing x options (the request side must not influence the response side)
+        xgrid = []
+        for lim, thr in (("6", "-"), ("-", "3"), ("6", "3")):
+            for nq in (1, 3, 4, 6, 7):
+                for nr in (0, 1, 3, 4, 6, 7, 12):
+                    for frq in ("cl", "chunked"):
+                        for frr in ("cl", "chunked", "eof"):
+                            xgrid.append(self._exch(rng, lim, thr, None, nq, nr, frq, frr, "none", "none"))
+        rng.shuffle(grid); rng.shuffle(xgrid)
+        if tier == "quick": grid, xgrid = grid[:1200], xgrid[:400]
+        yield from xgrid
         yield from grid
         sz = lambda n: str(n)
         while True:
@@ -380,8 +411,11 @@ class Check(PropertyCheck):
             if r < 0.08:
                 yield {"op": "size", "s_hex": hx(self._size_string(rng).encode("utf-8"))}
                 continue
-            if r < 0.45:
+            if r < 0.4:
                 yield self._wire(rng)
+                continue
+            if r < 0.6:
+                yield self._exch(rng)
                 continue
             d = rng.pick(["req", "resp"])
             fr = rng.pick(framings[d])
@@ -401,6 +435,25 @@ class Check(PropertyCheck):
                 ch = rng.split(body, rng.randint(1, 5)) if body else []
             if r > 0.97 and rng.chance(0.5): lim = self._size_string(rng)      # possibly rejected option value
             yield self._flow(d, fr, lim, thr, rng.randint(0, 1), rng.pick(POLICIES), ch, glue=rng.chance(0.25))
+
+    @staticmethod
+    def _exch(rng, lim=None, thr=None, store=None, nq=None, nr=None, frq=None, frr=None, pq=None, pr=None):
+        """an exchange whose request AND response carry a body; sizes, framings and policies drawn independently"""
+        alpha = b"abcdefghijklmnopqrstuvwxyz"
+        L, T = 6, 3
+        lim = rng.pick([None, str(L), str(L)]) if lim is None else (None if lim == "-" else lim)
+        thr = rng.pick([None, str(T), str(T)]) if thr is None else (None if thr == "-" else thr)
+        sizes = [0, 1, T, T + 1, L, L + 1, 2 * L]
+        def side(n, fr, pol, frs):
+            n = rng.pick(sizes) if n is None else n
+            body = bytes(alpha[i % 26] for i in range(n))
+            return {"framing": fr or rng.pick(frs), "chunks": [hx(c) for c in (rng.split(body, rng.randint(1, 3)) if body else [])],
+                    "policy": pol or rng.pick(["none", "none", "none", "true", "false", "id", "upper", "gen", "drop", "mark"]),
+                    "glue": rng.chance(0.2)}
+        q = side(nq, frq, pq, ["cl", "chunked"]); r = side(nr, frr, pr, ["cl", "chunked", "eof"])
+        c = {"op": "exch", "dir": "resp", "limit": lim, "thr": thr, "store": rng.randint(0, 1) if store is None else store, "pre": q}
+        c.update(r)
+        return c
 
     @staticmethod
     def _wire(rng):
@@ -474,8 +527,22 @@ class Check(PropertyCheck):
                                    #  ASCII-only model abstains, see model_lines)
 
     # ---- oracle: the property statement over the implementation's observable ----------------------------------------
+    @staticmethod
+    def _sides(case, obs):
+        """an exchange = a request-side flow case and a response-side flow case with their own observations"""
+        shared = {k: case[k] for k in ("limit", "thr", "store")}
+        req = dict(case["pre"], op="flow", dir="req", **shared)
+        rsp = {k: v for k, v in case.items() if k != "pre"}; rsp["op"] = "flow"
+        return [("req", req, obs["pre"]), ("resp", rsp, obs["main"])]
+
     def oracle(self, case, obs):
         if case["op"] == "size" or obs.get("rejected"): return []
+        if case["op"] == "exch":
+            # the per-direction clauses, each on its own direction of the same exchange
+            out = []
+            for tag, sub, o in self._sides(case, obs):
+                if o is not None: out += [f"{tag}: {f}" for f in self.oracle(sub, o)]
+            return out
         fails = []
         # HTTP/1 trailers are not implemented in mitmproxy (NotImplementedError): only that crash is outside this property
         crash = [c for c in obs["crash"] if not (obs.get("trailer") and c.startswith("NotImplementedError"))]
@@ -584,6 +651,11 @@ class Check(PropertyCheck):
         """F-C07a exactly: store_streamed_bodies on, body_size_limit set, the body was being STREAMED (head relayed before
         the message ended), the flow did not error, the first moment the buffer exceeds the limit lies at or after the
         start of streaming, and the failure is one of the three consequences of the missing check."""
+        if case.get("op") == "exch":
+            for tag, sub, o in self._sides(case, obs):
+                if failure.startswith(tag + ": ") and o is not None:
+                    return self.known(sub, o, failure[len(tag) + 2:])
+            return None
         if case.get("op") not in ("flow", "wire") or not case["store"] or case["limit"] is None: return None
         if obs.get("rejected") or not obs.get("relayed") or obs.get("head_at") is None: return None
         if any(LIMIT_MSG in e for e in obs["errors"]): return None
@@ -628,6 +700,14 @@ class Check(PropertyCheck):
             (base, dict(obs), "buffer-bound: holds 8 bytes after delivery 0 with limit 6 and largest chunk 0", None),
             ({"op": "size", "s_hex": "31"}, {"size": 1}, nohook, None),
         ]
+        # exchanges: the failure is classified on its own direction only
+        xc = {"op": "exch", "dir": "resp", "limit": "6", "thr": "3", "store": 1, "framing": "chunked", "chunks": base["chunks"],
+              "policy": "none", "glue": False, "pre": {"framing": "cl", "chunks": ["63"], "policy": "none", "glue": False}}
+        small = dict(obs, head_at=None, relayed=True, samples=[0, 1, 0])
+        xo = {"pre": small, "main": obs}
+        T += [(xc, xo, "resp: " + nohook, "F-C07a"), (xc, xo, "req: " + nohook, None),
+              (xc, xo, "resp: not-streamed: streaming was due from the headers on, but the head was not relayed when the headers arrived", None),
+              (xc, {"pre": small, "main": buffered}, "resp: " + nohook, None), (xc, xo, nohook, None)]
         for case, o, failure, want in T:
             got = self.known(case, o, failure)
             if got != want:
@@ -645,6 +725,12 @@ class Check(PropertyCheck):
             return ["size " + case["s_hex"]]
         opt = lambda v: "none" if v is None else hx(v.encode())
         if any(case.get(k) is not None and not case[k].isascii() for k in ("limit", "thr")): raise Skip()
+        if case["op"] == "exch":
+            def side(c):
+                tot = sum(len(unhx(x)) for x in c["chunks"])
+                e = f"cl:{tot}" if c["framing"] == "cl" else c["framing"]
+                return f"{c['policy']} {e} {1 if (c['framing'] == 'cl' and tot == 0) else 0} " + (",".join(c["chunks"]) if c["chunks"] else "-")
+            return [f"exch {opt(case['limit'])} {opt(case['thr'])} {case['store']} {side(case['pre'])} {side(case)}"]
         if case["op"] == "wire":
             fr = f"cl:{case['cl']}" if case["framing"] == "cl" else case["framing"]
             return [f"wire {case['dir']} {opt(case['limit'])} {opt(case['thr'])} {case['store']} {case['policy']} {fr} "
@@ -660,6 +746,12 @@ class Check(PropertyCheck):
     def model_obs(self, case, replies):
         r = replies[0]
         if case["op"] == "size" or r in ("rejected", "bad-op"): return r
+        if case["op"] == "exch":
+            a, b = r.split(" | ")
+            subs = self._sides(case, {"pre": None, "main": None})
+            mq = self.model_obs(subs[0][1], [a]); mr = self.model_obs(subs[1][1], [b])
+            # nothing of the response is handled after the request was refused
+            return {"req": mq, "resp": None if mq["err"] else mr}
         f = r.split(" ")
         err, relayed, samples, peer, content = f[0] == "1", f[1] == "1", [int(x) for x in f[2].split(",")], f[3], f[4]
         if case["op"] == "wire":
@@ -682,6 +774,10 @@ class Check(PropertyCheck):
         if case["op"] == "size":
             return "err" if obs["size"] == "err" else f"ok {obs['size']}"
         if obs.get("rejected"): return "rejected"
+        if case["op"] == "exch":
+            subs = self._sides(case, obs)
+            return {"req": self.impl_view(subs[0][1], obs["pre"]),
+                    "resp": None if obs["main"] is None else self.impl_view(subs[1][1], obs["main"])}
         if obs.get("trailer"): return "unsupported-trailer"
         errored = any(LIMIT_MSG in e for e in obs["errors"])
         v = {"err": errored, "relayed": obs["relayed"], "samples": obs["samples"], "peer": obs["peer_chunks"],
@@ -691,6 +787,8 @@ class Check(PropertyCheck):
 
     def classify(self, case, obs):
         if case["op"] == "size": return ("size", case["s_hex"]) if case["s_hex"] != "-" else None
+        if case["op"] == "exch":
+            return json.dumps(case, sort_keys=True)
         if case["op"] == "wire":
             return ("wire", case["dir"], case["framing"], case.get("cl"), case["limit"], case["thr"], case["store"], case["policy"],
                     tuple(case["segs"]), case["close"])
@@ -701,6 +799,14 @@ class Check(PropertyCheck):
     def branches(self, case, obs):
         if case["op"] == "size": return ["size:" + ("err" if obs["size"] == "err" else "ok")]
         if obs.get("rejected"): return ["flow:option-rejected"]
+        if case["op"] == "exch":
+            def verdict(o):
+                if o is None: return "not-reached"
+                if any(LIMIT_MSG in e for e in o["errors"]): return "over-limit"
+                if o["relayed"] and o["head_at"] is not None and o["head_at"] < o["n_deliveries"] - 1: return "streamed"
+                return "buffered"
+            return [f"exch:req-{verdict(obs['pre'])}/resp-{verdict(obs['main'])}", "exch:req-" + case["pre"]["framing"],
+                    "exch:resp-" + case["framing"]]
         if case["op"] == "wire":
             return ["wire:" + case["framing"], "wire:" + ("protocol-error" if obs["proto_err"] else "ok"),
                     "wire:segments=%d" % min(len(case["segs"]), 6), f"dir:{case['dir']}", f"policy:{case['policy']}"]
